@@ -66,7 +66,7 @@ def defs_flags(defs):
     return fl
 
 
-def build_ir(src, defs, std, wd, extra=()):
+def build_ir(src, defs, std, wd, extra=(), lockinst=False):
     """clang -> strip -> opt. returns path of optimized .ll"""
     ll = os.path.join(wd, 'm.ll')
     cmd = [CLANG, '-std=' + std, '-O1', '-fno-inline', '-fno-vectorize', '-fno-slp-vectorize', '-fno-unroll-loops',
@@ -76,6 +76,12 @@ def build_ir(src, defs, std, wd, extra=()):
     r = sh(cmd, timeout=300)
     if r['rc'] != 0:
         raise BuildError('clang failed: ' + r['err'][-3000:])
+    if lockinst:
+        from . import lockinst as LI
+        txt, n = LI.instrument(open(ll).read())
+        if n == 0:
+            raise MachineryFault('lock instrumentation matched no function')
+        open(ll, 'w').write(txt)
     from . import stripstd
     sl = os.path.join(wd, 'm.strip.ll')
     nstrip = stripstd.strip(ll, sl, STD_BOUNDARY)
